@@ -508,6 +508,14 @@ def case_script(c, number, leak):
 def run(ctx, standalone=False):
     rng = ctx.rng
     thorough = ctx.tier == "thorough"
+    coq_ok, _res = ctx.coq_obligations(["CalFile/CalFileProofs.v", "Properties_C09cal.v"])
+    ctx.trusted_base += [
+        "C09(cal): Coq 8.16.1 kernel, no axioms (Print Assumptions: Closed under the global context for Properties_C09cal.v)",
+        "C09(cal): libyaml supplies the node tree (harness/yamltree.c); the glue checks/c09_model.py attaches the sscanf/strtod oracle values",
+        "C09(cal): hand-written model coq/CalFile/CalFileModel.v of vnacal_load.c, tied to the library by running both on every generated input",
+        "C09(cal): gcc, ASan/UBSan/LSan, allocation interposer harness/allocwrap.c",
+    ]
+    ctx.assumptions += ["C09(cal): allocation failure inside vnacal_load is not modelled (C12 covers it); libyaml's own totality is trusted"]
     exe = ctx.build_harness("calfile_harness", san=True, wrap=True)
     ytree = ctx.build_harness("yamltree", san=True)
     d = os.path.join(ctx.tmp, "c09cal")
@@ -628,11 +636,12 @@ def run(ctx, standalone=False):
                 "families": {f: len([c for c in cases if c.family == f]) for f in sorted(set(c.family for c in cases))}})
 
     # ---- tie: extracted Coq model of the loader on the same node trees
-    try:
-        import c09_model
-        c09_model.tie(ctx, cases, trees, outcome, violate)
-    except ImportError:
-        ctx.notes.append("C09(cal): model tie not available")
+    import c09_model
+    nv = len(ctx.violations)
+    c09_model.tie(ctx, cases, trees, outcome, violate)
+    if not coq_ok and len(ctx.violations) == nv:
+        ctx.unproved("Properties_C09cal (load_total, load_ok_wf_partial)", "the Coq development of the loader model no longer compiles",
+                     "model vs vnacal_load on %d inputs: no disagreement, no ill-formed accepted object" % len(cases))
 
     ctx.log("C09(cal): calibration inputs evaluated")
     # ---- vnaproperty_import_yaml_from_string / _from_file
